@@ -696,11 +696,11 @@ pub fn run_check(check: &dyn Check, tier: Tier) -> i32 {
                             // The re-execution itself ran into the endless loop: keep the
                             // original witness, which the worker did observe
                             lines.push(format!("note: {} could not be re-executed here (hang); reporting the worker's witness", key));
-                        } else if (key.contains("/pty/") || key.contains("/real-watch/")) && (0..3).any(|_| still_fails(check, &cap, &scenario, &key).is_some()) {
+                        } else if (key.contains("/pty") || key.contains("/real-watch/")) && (0..3).any(|_| still_fails(check, &cap, &scenario, &key).is_some()) {
                             // Worlds paced by real time: the system under test races with its
                             // own terminal or file-system notifications; seen again on a retry
                             lines.push(format!("note: {} reproduces only on some executions (a race inside the program under test)", key));
-                        } else if key.contains("/pty/") || key.contains("/real-watch/") {
+                        } else if key.contains("/pty") || key.contains("/real-watch/") {
                             // The worker saw it in two consecutive executions of the scenario
                             // (that is the rule of these worlds); here it did not show in five
                             lines.push(format!(
